@@ -1617,6 +1617,18 @@ class StoreLib(LibBase):
             if not isinstance(g, VGen):
                 raise Unsupported("env.process of %r" % (g,))
             s = st.fork()
+            if g.name == "_delayed_interrupt":
+                # the process contract's precondition (delay >= 0) is an obligation of the site that starts it -- when the
+                # delay is a modelled number.  A delay that comes out of the assumed pattern analysis is outside the model:
+                # there the precondition is ASSUMED (A-planner-delay, listed in every evidence file)
+                gcon = self.contracts[ex.ctx.cls].get(g.name)
+                d_ = ex.deref(g.args.get("delay"), s) if g.args.get("delay") is not None else None
+                if gcon is not None and isinstance(d_, (Num, V.VDyn)):
+                    for nm_, cl_ in gcon.pre(s, dict(g.args, delay=d_)):
+                        ex.ctx.oblige("spawn.%s.pre.%s@L%d" % (g.name, nm_, node.lineno), s, [cl_], "call-pre", node.lineno,
+                                      ("C20", "C12"))
+                else:
+                    s.ghost.setdefault("assumed_pre", []).append((g.name, node.lineno))
             p_ = s.fresh_obj("proc")
             s.ghost.setdefault("spawned", []).append((g.name, g.args, p_.t))
             return [(p_, s)]
